@@ -108,6 +108,7 @@ func exploreCase(sc schedCase, tier string, shard, nshards int, r *Result) {
 		cfg.Deadline = r.deadline
 	}
 	res := vsched.Explore(cfg, func() { last = runOnce() }, func(choices []int, c *vsched.Chooser) bool {
+		r.Beat()
 		o := last
 		r.Distinct(sc.Name + "|" + o.key())
 		outcomes[o.Sched]++
